@@ -2,14 +2,15 @@
 # Runs the quick checks against property-breaking patches, on scratch copies of /repo and /verif
 # (so that neither /repo nor the evidence files in /verif are touched and work in /verif can go on).
 #   tools/run_mutants.sh [dir-or-patch ...]      (default: /verif/mutants /verif/seeded)
-# env: CHECKS="C01 C02 ..." to restrict; SUITE=0 to skip the repository's own test suite;
+# env: CHECKS="C01 C02 ..." to restrict; AIMED_ONLY=1 to run only the aimed-at check per change;
+#      RESULTS_FILE=<path> to append elsewhere; SUITE=0 to skip the repository's own test suite;
 #      KEEP=1 to keep the scratch directory.
 # For each patch: apply to the scratch repo, run the repository's test suite there (a mutant must
 # pass it to count), run the checks, record which checks print a VIOLATION line, restore the tree.
 set -u
 ROOT="$(cd "$(dirname "$0")/.." && pwd)"
 CHECKS="${CHECKS:-C01 C02 C03 C04 C05 C06 C07 C08 C09 C10 C11 C12 C13 C14 C15 C16 C17 C18 C19}"
-OUT="$ROOT/mutants/RESULTS.tsv"
+OUT="${RESULTS_FILE:-$ROOT/mutants/RESULTS.tsv}"
 [ $# -eq 0 ] && set -- "$ROOT/mutants" "$ROOT/seeded"
 patches=()
 for a in "$@"; do
@@ -32,7 +33,12 @@ for p in "${patches[@]}"; do
     if (cd "$S/repo" && cargo test --workspace --offline >"$S/suite.log" 2>&1); then suite="suite-passes"; else suite="SUITE-FAILS"; fi
   fi
   caught=""
-  for c in $CHECKS; do
+  checks="$CHECKS"
+  if [ "${AIMED_ONLY:-0}" = 1 ]; then
+    # only the check of the property the change was aimed at (C07-b -> C07, m11-... -> C11)
+    checks="C$(echo "$name" | sed -E 's/^[mC]([0-9][0-9]).*/\1/')"
+  fi
+  for c in $checks; do
     out="$("$S/verif/check" "$c" --tier quick 2>&1)"; rc=$?
     if [ $rc -eq 1 ] && echo "$out" | grep -q "^VIOLATION property=$c "; then caught="$caught $c"
     elif [ $rc -ne 0 ]; then caught="$caught $c(machinery:$rc)"; fi
